@@ -311,7 +311,7 @@ def run_config(ctx, rep, cfg, F):
             lost_entries(rep, F, where, p)
     for p in C.complete(ctx.paths(F, "PrefixMap::remove_children", OPTS)):
         pass
-    rep.floor("certificate walks (%s)" % cfg, n, 900)
+    rep.floor("certificate walks (%s)" % cfg, n, 1500)
     # R01.5
     import re
     leaks = 0
